@@ -27,6 +27,15 @@ CHECKS = {
  "C07": ("exploration", "defect injection at every position + rule-drop differential oracle + acceptance of defect-free policies", "E3+E1+E2", "DESIGN.md 3/C07",
          "Each defect class of the statement is injected at every position of accepted base policies and must yield (nil program, error, no panic); defect-free policies from three profiles must be accepted; for every condition a pair of events differing only in what it tests must get different verdicts whenever the reference semantics distinguishes them.",
          "One defect at a time; empty condition lists and unnamed group actions are outside the property."),
+ "C12": ("exploration", "exhaustive table audit against vendored independent oracles + cross-process lookup dumps", "oracles+vc", "DESIGN.md 3/C12",
+         "All five tables are walked completely: every row is checked for inversion both ways, unique names and equality with every oracle source (kernel UAPI headers, x/sys/unix, Go's syscall package) listing the name; the 16 architecture ids and 29 AUDIT_ARCH names are compared with linux/audit.h; 22 alias keys in three letter cases; N fresh processes must dump identical lookup results (the inversion is redone at every start).",
+         "Oracles were generated once from files on this image and are trusted; agreement is required only where an oracle lists the name."),
+ "C13": ("exploration", "Go race detector + golden-run byte comparison + sentinel-guarded shared slices + cross-process digests", "vc + race build", "DESIGN.md 3/C13",
+         "A fixed PRNG list of policies is compiled by 16 goroutines (distinct values and struct copies sharing backing arrays whose spare capacity holds sentinels) while other goroutines run lookups and text conversions; every program and Dump is compared with a sequential golden run, the policy is deep-compared before/after, the workload is repeated under the race detector, and fresh processes must print identical digests and text forms for all flag/action values.",
+         "A clean race-detector run covers only the interleavings that occurred; concurrent use of one *Policy pointer is outside the property."),
+ "C14": ("exploration", "parser sweep with three-way case-folding oracle + render/load/compile round trips through the sandbox's configuration path", "vc + go-ucfg", "DESIGN.md 3/C14",
+         "Every ASCII case mask of every documented action/operation name, near misses, Unicode fold look-alikes and PRNG strings are offered to the parsers; PRNG valid policies are rendered as documented hand-written YAML, yaml.Marshal and json.Marshal, loaded through ucfg exactly as cmd/sandbox does, compiled and compared instruction by instruction with the in-memory policy's program.",
+         "go-ucfg and yaml.v2 are exercised as they are; policies are sampled."),
 }
 
 def main():
